@@ -11,15 +11,20 @@ let p_event (((abcd, rows), ei), ej) =
 let p_result (((((out, rp), perm), eff), left), tr) =
   ps "{\"out\":"; p_mat p_z out; ps ",\"rp\":"; p_mat p_z rp; ps ",\"perm\":"; p_list p_nat perm;
   ps ",\"eff\":"; p_nat eff; ps ",\"left\":"; p_nat left; ps ",\"trace\":"; p_list p_event tr; ps "}"
+(* outcome code: 0 Done, 1 Rejected (BCTParamError), 2 Raises (other exception), 3 StreamEnd *)
+let p_outcome (code, r) = ps "{\"code\":"; p_nat code; ps ",\"res\":"; p_opt p_result r; ps "}"
 let dispatch = function
   | "rewire" ->
       let rt = next_nat () in let rows = next_mat next_z in let itr = next_nat () in
       let d = next_opt (fun () -> next_mat next_z) in let s = next_list next_draw in
-      p_opt p_result (run_rewire rt rows itr d s)
+      p_outcome (run_rewire rt rows itr d s)
   | "partial" ->
       let rows = next_mat next_z in let mask = next_mat next_z in let ms = next_nat () in
       let s = next_list next_draw in
-      p_opt p_result (run_partial rows mask ms s)
+      p_outcome (run_partial rows mask ms s)
+  | "precheck" ->
+      let rt = next_nat () in let rows = next_mat next_z in
+      p_bool (run_precheck rt rows)
   | "rbu" ->
       let rows = next_mat next_z in let a = next_nat () in let b = next_nat () in
       let c = next_nat () in let d = next_nat () in
